@@ -165,3 +165,71 @@ def f15(plan, violation, rec):
     except Exception:
         return False
     return not any(v["prop"] == "C10" and v["oracle"] == "passes_commute" for v in r2["violations"])
+
+
+# --------------------------------------------------------------------------------------
+# F54: `map x b[:]` (a defaulted slice stop) of an alias b whose own bounds are let-valued:
+# the builder writes the stop as b's size under the *declared* let values, so an override
+# that shrinks b makes fill_in_let reject the valid program ("Index out of range.").
+
+
+def _f54_culprits(prog, used):
+    if not prog or not prog.get("maps"):
+        return set()
+    maps = {m["name"]: m for m in prog["maps"]}
+    declared = dict((n, v) for n, v in prog["lets"])
+    changed = {k for k, v in (used or {}).items() if k in declared and declared[k] != v}
+    culprits = set()
+    for m in prog["maps"]:
+        if m.get("kind") == "slice" and m.get("stop") is None and m.get("src") in maps:
+            src = m["src"]
+            seen = set()
+            while src in maps and src not in seen:
+                seen.add(src)
+                mm = maps[src]
+                for k in ("start", "stop", "step", "idx"):
+                    if isinstance(mm.get(k), str) and mm[k] in changed:
+                        culprits.add(mm[k])
+                src = mm.get("src")
+    return culprits
+
+
+def _f54_prog_and_used(plan):
+    if plan.get("prop") in ("C10", "C11", "C16") or plan.get("engine") == "E1":
+        texts = plan.get("texts") or [{}]
+        prog = texts[0].get("prog")
+        used = dict(plan.get("override") or {})
+        used.update(plan.get("override2") or {})
+        return prog, used, ("override", "override2")
+    return plan.get("prog"), dict(plan.get("overrides") or {}), ("overrides",)
+
+
+def f54_possible(plan, violation, rec):
+    prog, used, _ = _f54_prog_and_used(plan)
+    return bool(_f54_culprits(prog, used))
+
+
+CHEAP["f54_defaulted_stop_baked"] = f54_possible
+
+
+@predicate("f54_defaulted_stop_baked")
+def f54(plan, violation, rec):
+    prog, used, keys = _f54_prog_and_used(plan)
+    culprits = _f54_culprits(prog, used)
+    if not culprits:
+        return False
+    # the failure must disappear once those lets keep their declared values
+    import copy
+    from . import shrink
+
+    p2 = copy.deepcopy(plan)
+    for k in keys:
+        if p2.get(k):
+            p2[k] = {n: v for n, v in p2[k].items() if n not in culprits}
+    p2["tapes"] = None
+    mod = __import__("sim.engine_session" if plan.get("engine") == "E1" else "sim.engine_exec", fromlist=["x"])
+    try:
+        r2 = shrink.run_plan(mod, p2)
+    except Exception:
+        return False
+    return not any(v["oracle"] == violation["oracle"] and v.get("where") == violation.get("where") and v["cls"] == violation["cls"] for v in r2["violations"])
